@@ -121,3 +121,10 @@ GROUPS += [
           functions=["read_bounds", "read_colname", "ILLraw_set_lowerBound", "ILLraw_set_upperBound", "ILLraw_set_fixedBound", "ILLraw_set_unbound", "ILLraw_init_bounds", "ILLraw_fill_in_bounds"],
           props=["C10", "C11", "C17"], assumed=["lp/bounds: static read_bounds called through goto-cc --export-file-local-symbols; the character scanner (possible_bound_value, bound_sense, next_var, next_is, prev_field; decided in rdr/lp_scan_*) is replaced by a token cursor; the symbol table lookup is a stub"]),
 ]
+
+GROUPS += [
+    Group("lp/one_constraint", "lp_constraint.c", tus=["lp_mpq.c"], model=MODEL, defines=["QSV_GMP_EXACT", "QSV_NARROW", "QSV_GMP_TOKENS", "QSV_INF=1024"], dfcc=False, unwind=5, kind="bounded", namebuf=512, timeout=900,
+          bound="one constraint with 0..2 unit terms, every combination of new / repeated row name, sense present / missing, right-hand side present / missing, row creation succeeding / failing; loops completely unwound",
+          flags=["--no-malloc-may-fail"], must_fail=["reach_end", "reach_accepted_two_terms", "reach_missing_rhs"], functions=["ILLread_one_constraint", "ILLread_constraint_expr", "add_var"],
+          props=["C10", "C11", "C18", "C17"], assumed=["lp/one_constraint: the scanner functions, the symbol table lookup and the raw-problem adders are ghost-recording stubs"]),
+]
